@@ -69,8 +69,8 @@ def shape(t: str) -> str:
     return "-".join(seq) or "plain"
 
 
-def check_text(t: str, accepted: bool = False) -> tuple[list[dict], int]:
-    """Returns (failures, number of Error tokens on the normalised text)."""
+def check_text(t: str, accepted: bool = False, with_n: bool = True) -> tuple[list[dict], int]:
+    """Returns (failures, number of Error tokens on the normalised text). with_n=False evaluates contract U only."""
     lx, Error = _lexer()
     fails = []
     inp = {"text": t, "accepted": accepted}
@@ -101,6 +101,8 @@ def check_text(t: str, accepted: bool = False) -> tuple[list[dict], int]:
                       "input": inp, "contract": CONTRACT_U, "observed": {"symptom": bad, "tokens": parts[:20]}})
     # N and E
     n_err = 0
+    if not with_n:
+        return fails, sum(1 for _ in ())
     try:
         toks = list(itertools.islice(lx.get_tokens(t), 0, 4 * len(t) + 16))
         got = "".join(v for _tt, v in toks)
@@ -117,18 +119,21 @@ def check_text(t: str, accepted: bool = False) -> tuple[list[dict], int]:
 
 
 def _w_enum(args) -> dict:
-    prefix, rest_len = args
-    n = errs = 0
+    prefix, rest_len, n_full_len = args
+    n = errs = n_n = 0
     fails = []
     for k in range(rest_len + 1):
         for tup in itertools.product(ALPHABET, repeat=k):
             t = prefix + "".join(tup)
-            f, e = check_text(t)
+            # contract N on every string up to n_full_len and on longer ones whose normalisation is not just "+LF"
+            with_n = len(t) <= n_full_len or t[0] in "\n\r" or t[-1] in "\n\r" or "\r" in t
+            f, e = check_text(t, with_n=with_n)
+            n_n += with_n
             n += 1
             errs += 1 if e else 0
             if f and len(fails) < 50:
                 fails += f
-    return {"n": n, "fails": fails, "errs": errs}
+    return {"n": n, "fails": fails, "errs": errs, "n_n": n_n}
 
 
 def _w_list(args) -> dict:
@@ -170,7 +175,7 @@ def run_t3(ctx: Ctx) -> PropResult:
     tasks.append(("enum-short", None))
     for a in ALPHABET:
         for b in ALPHABET:
-            tasks.append(("enum", (a + b, max_len - 2)))
+            tasks.append(("enum", (a + b, max_len - 2, max_len if ctx.thorough else max_len - 1)))
     rnd = random_texts(random.Random(ctx.seed + 17), 40000 if ctx.thorough else 8000)
     for i in range(0, len(rnd), 2000):
         tasks.append(("list", (rnd[i : i + 2000], False)))
@@ -180,13 +185,14 @@ def run_t3(ctx: Ctx) -> PropResult:
     mp = multiprocessing.get_context("spawn")
     with mp.Pool(max(1, ctx.jobs)) as pool:
         parts = pool.map(_dispatch, tasks, chunksize=1)
-    n_enum = n_rnd = n_prog = errs_any = 0
+    n_enum = n_rnd = n_prog = errs_any = n_with_n = 0
     distinct_prog = 0
     fails = []
     for (tag, _a), p in zip(tasks, parts):
         fails += p["fails"]
         if tag in ("enum", "enum-short"):
             n_enum += p["n"]
+            n_with_n += p.get("n_n", p["n"])
             errs_any += p["errs"]
         elif tag == "list":
             n_rnd += p["n"]
@@ -208,7 +214,8 @@ def run_t3(ctx: Ctx) -> PropResult:
         bound=f"all {expected_enum} strings of length <= {max_len} over {list(ALPHABET)!r}; {n_rnd} seeded random unicode strings of length <= 40 tokens of a pool with BOM, NUL, lone surrogates, astral characters",
         evaluations=n_enum + n_rnd, distinct_nontrivial=n_enum - 1, exhaustive=True,
         samples=["'''a\"'", "/*/", "§a\r\n"],
-        notes=f"distinct = enumerated strings (all distinct by construction), non-trivial = non-empty. Inputs of the scope on which an Error token appears (allowed for arbitrary text): {errs_any}",
+        notes=f"contract U on every enumerated string; contract N on {n_with_n} of them (quick tier: all of length <= {max_len - 1} and those of length {max_len} that "
+              f"start/end with a line break or contain CR; thorough: all). distinct = enumerated strings (all distinct by construction), non-trivial = non-empty. Inputs of the scope on which an Error token appears (allowed for arbitrary text): {errs_any}",
     ))
     res.standins.append(StandIn(
         contract=CONTRACT_E + "; " + CONTRACT_N, tier="T3",
